@@ -2,34 +2,34 @@ SPECIFICATION MCSpec
 CONSTANT MaxBlocks = 2
 CONSTANT MaxTry = 2
 CONSTANT WalkLen = 0
-CONSTANT TxIds = {"t1", "t2", "t3", "t4", "t7", "t9"}
+CONSTANT TxIds = {"t1", "t2", "t3", "t4", "t7", "t10"}
 CONSTANT Recipients = {"none", "c1"}
 CONSTANT GasPrices = {1}
 VIEW View
 INVARIANT PhaseOk
-INVARIANT ValidateAccepts
-INVARIANT BlockAsSpec
-INVARIANT CommitIsProduced
-INVARIANT SpentExisted
-INVARIANT SpentOnce
-INVARIANT CreatedFresh
-INVARIANT EventsAreDiff
-INVARIANT CoinsAsSpec
-INVARIANT EventsAsSpec
-INVARIANT MintRules
-INVARIANT Limits
 INVARIANT AskedWhatIsLeft
+INVARIANT BlockAsSpec
+INVARIANT CoinsAsSpec
+INVARIANT CommitIsProduced
+INVARIANT CreatedFresh
+INVARIANT DaExact
+INVARIANT DupRejected
+INVARIANT EventsAreDiff
+INVARIANT EventsAsSpec
+INVARIANT ExecutedOnce
+INVARIANT ForcedExecutedOrFailed
+INVARIANT ImportedInOrder
+INVARIANT InboxRoot
+INVARIANT Limits
+INVARIANT MessageImportedOnce
+INVARIANT MessagesLand
+INVARIANT MintRules
 INVARIANT MintTamperedRejected
+INVARIANT ReplayOk
 INVARIANT RevertFrame
 INVARIANT SkipFrame
-INVARIANT DaExact
-INVARIANT ImportedInOrder
-INVARIANT MessageImportedOnce
-INVARIANT ForcedExecutedOrFailed
-INVARIANT InboxRoot
-INVARIANT MessagesLand
-INVARIANT ExecutedOnce
-INVARIANT DupRejected
-INVARIANT ReplayOk
+INVARIANT SpentExisted
+INVARIANT SpentOnce
 INVARIANT TamperedRejected
+INVARIANT ValidateAccepts
 CHECK_DEADLOCK FALSE
